@@ -155,7 +155,12 @@ fn start_watchdog(secs: u64) {
 fn start_watchdog(_: u64) {}
 
 fn main() {
-    std::panic::set_hook(Box::new(|_| {}));
+    // panics injected into / raised by the code under test are data and are caught: no message, unless asked for
+    if std::env::var("CVH_PANIC_MSG").is_ok() {
+        std::panic::set_hook(Box::new(|i| eprintln!("PANIC-MSG {i}")));
+    } else {
+        std::panic::set_hook(Box::new(|_| {}));
+    }
     start_watchdog(std::env::var("CVH_WATCHDOG_SECS").ok().and_then(|s| s.parse().ok()).unwrap_or(30));
     let argv: Vec<String> = std::env::args().collect();
     if argv.len() < 2 {
